@@ -103,3 +103,60 @@ Example C07_example :
   parse_yd ex_ts ex_ydl = Ok (Some (129025, 2, 127, 255, rev ex_data, false)) /\
   parse_acti ex_acti = Ok (Some (129025, 2, 127, 255, rev ex_data, true)).
 Proof. vm_compute. repeat split. Qed.
+
+(* C07_assembled instantiated with the CONCRETE fast-packet pair of C03 (AssembledInst.v), no abstract hypothesis left:
+     segment seq payload  the encoder's frames under sequence counter seq (FastPacket.segment, wire byte order);
+     reasm datas          what the decoder's reassembly state machine (FastPacket.run, fresh record, decode function
+                          that returns) delivers to _call_decode_function at the last of the `can_data` arguments
+                          `datas` when every earlier one returned None; None otherwise.
+   A fast packet carries at most 223 bytes, hence the bound (C07_assembled's hypotheses, which range over every
+   payload, are needed at the given payload only: AssembledInst.assembled_at). *)
+From NV Require Import FastPacket FastPacketProofs AssembledInst.
+
+Theorem C07_assembled_fastpacket : forall (ts_ok : Z -> list Z -> bool) seq id payload inputs,
+  0 <= seq < 8 -> 0 <= id < 536870912 -> bytes_ok payload = true -> payload <> [] -> zlen payload <= 223 ->
+  Forall2 (renders ts_ok id) (segment seq payload) inputs ->
+  let '(pgn, src, dst, prio) := extract_header id in
+  (exists datas,
+      map (parse_frame_input ts_ok) inputs = map (fun d => Ok (Some (pgn, prio, src, dst, d, false))) datas /\
+      reasm datas = Some (rev payload)) /\
+  (forall sec ms ntok ptok dtoks tail,
+      acti_ts_ok sec ms -> tokval 16 ntok = Some (acti_build src dst prio) -> tokval 16 ptok = Some pgn ->
+      Forall2 (fun t b => length t = 2%nat /\ tokval 16 t = Some b) dtoks payload -> forallb is_ws tail = true ->
+      parse_acti (acti_line sec ms ntok ptok (concat dtoks) tail) = Ok (Some (pgn, prio, src, dst, rev payload, true))) /\
+  (forall ts ptok gtok stok dtok ltok dts extra,
+      basic_ts ts_ok ts -> dec_tok ptok prio -> dec_tok gtok pgn -> dec_tok stok src -> dec_tok dtok dst ->
+      dec_tok ltok (zlen payload) -> Forall2 (fun t b => tokval 16 t = Some b) dts payload ->
+      Forall (fun t => nocomma t /\ all_ascii t = true) extra -> dts ++ extra <> [] ->
+      parse_basic ts_ok (basic_line ts ptok gtok stok dtok ltok dts extra) true
+      = Ok (Some (pgn, prio, src, dst, rev payload, true))).
+Proof. exact assembled_fastpacket. Qed.
+Print Assumptions C07_assembled_fastpacket.
+
+(* non-vacuity: identifier 0x0DF8057F (prio 3, PGN 129029, source 127), the 15-byte payload of C03_example under
+   counter 7 = three frames, each sent as an EByte packet (the last one, 3 data bytes, padded with FF);
+   the data handed to `_decode`, frame by frame, reassemble to the reversed payload *)
+Definition fp_id : Z := 0x0DF8057F.
+Definition fp_packets : list (list Z) :=
+  [136 :: be4 fp_id ++ [224; 15; 1; 2; 3; 4; 5; 6];
+   136 :: be4 fp_id ++ [225; 7; 8; 9; 10; 11; 12; 13];
+   131 :: be4 fp_id ++ [226; 14; 15] ++ [255; 255; 255; 255; 255]].
+Example C07_fastpacket_example :
+  extract_header fp_id = (129029, 127, 255, 3) /\ bytes_ok ex_payload = true /\ zlen ex_payload = 15 /\
+  segment 7 ex_payload = [[224; 15; 1; 2; 3; 4; 5; 6]; [225; 7; 8; 9; 10; 11; 12; 13]; [226; 14; 15]] /\
+  let datas := [[6; 5; 4; 3; 2; 1; 15; 224]; [13; 12; 11; 10; 9; 8; 7; 225]; [15; 14; 226]] in
+  map (parse_frame_input ex_ts) (map InTcp fp_packets)
+    = map (fun d => Ok (Some (129029, 3, 127, 255, d, false))) datas /\
+  reasm datas = Some (rev ex_payload) /\
+  reasm (firstn 2 datas) = None.
+Proof. vm_compute. repeat split. Qed.
+(* and these packets are renderings in the sense of the theorem's hypothesis *)
+Example C07_fastpacket_example_renders :
+  Forall2 (renders ex_ts fp_id) (segment 7 ex_payload) (map InTcp fp_packets).
+Proof.
+  change (segment 7 ex_payload) with [[224; 15; 1; 2; 3; 4; 5; 6]; [225; 7; 8; 9; 10; 11; 12; 13]; [226; 14; 15]].
+  cbn [map fp_packets]. constructor; [|constructor; [|constructor; [|constructor]]].
+  - exact (R_tcp ex_ts fp_id [224; 15; 1; 2; 3; 4; 5; 6] 136 [] eq_refl).
+  - exact (R_tcp ex_ts fp_id [225; 7; 8; 9; 10; 11; 12; 13] 136 [] eq_refl).
+  - exact (R_tcp ex_ts fp_id [226; 14; 15] 131 [255; 255; 255; 255; 255] eq_refl).
+Qed.
